@@ -128,7 +128,7 @@ var c19KV = &c19Type{name: "kv", typename: "keyvalue", canDel: true,
 
 const c19Blk = 16
 
-var c19Img = &c19Type{name: "img", typename: "uint8blk", config: map[string]string{"BlockSize": "16,16,16"}, canDel: false,
+var c19Img = &c19Type{name: "img", typename: "uint8blk", config: map[string]string{"BlockSize": "16,16,16", "VoxelSize": "4,5,6", "VoxelUnits": "microns,microns,microns"}, canDel: false, // (non-default resolution: a copy must carry it over, C19-3)
 	write: func(n *node.Node, u, inst string, j, k int) error {
 		buf := make([]byte, c19Blk*c19Blk*c19Blk)
 		for i := range buf {
@@ -549,6 +549,42 @@ func c19Shape(c *Ctx, run *ev.Run, s *dagm.Sess, sh copyShape, si int, maxKV int
 	for _, ci := range copies {
 		compare(ci.src, ci.name, ci.mode, ci.flatV, "copy-read")
 	}
+	// C19-3: the properties carried over (c19_props.go)
+	propsOf := map[string]string{}
+	propsAt := func(flatV int) string { // imageblk answers info with the extents stored at the version asked
+		if flatV > 0 {
+			return uuid(flatV)
+		}
+		return uuid(1)
+	}
+	for _, ci := range copies {
+		want, err := c19Props(s.N, propsAt(ci.flatV), ci.src.inst)
+		must(err, "info of source")
+		got, err := c19Props(s.N, propsAt(ci.flatV), ci.name)
+		must(err, "info of copy")
+		propsOf[ci.name] = got
+		atomic.AddInt64(&c19PropsCompared, 1)
+		if got != want {
+			report(c19Divergence{Kind: "copy-properties", Datatype: ci.src.typ.typename, Source: ci.src.inst, Copy: ci.name, Mode: ci.mode, Expected: want, Observed: got, Script: s.Script})
+		}
+	}
+	// C19-2: a restart after the copies changes neither the reads nor the properties
+	if c19RestartSample(c, si) {
+		must(s.N.Restart(si%12 == 0), "restart after the copies")
+		c19NoteRestart()
+		for _, src := range srcs {
+			compare(src, src.inst, "after a restart", 0, "source-read-after-restart")
+		}
+		for _, ci := range copies {
+			compare(ci.src, ci.name, ci.mode+", after a restart", ci.flatV, "copy-read-after-restart")
+			got, err := c19Props(s.N, propsAt(ci.flatV), ci.name)
+			must(err, "info of copy")
+			atomic.AddInt64(&c19PropsCompared, 1)
+			if got != propsOf[ci.name] {
+				report(c19Divergence{Kind: "copy-properties-after-restart", Datatype: ci.src.typ.typename, Source: ci.src.inst, Copy: ci.name, Mode: ci.mode, Expected: propsOf[ci.name], Observed: got, Script: s.Script})
+			}
+		}
+	}
 	run.Eval(fmt.Sprintf("N%d|%v", n, sh.Par))
 	if si%97 == 0 && len(srcs[1].placements) > 0 {
 		p := srcs[1].placements[len(srcs[1].placements)/2]
@@ -609,6 +645,8 @@ func checkC19(c *Ctx) int {
 	run.Set("traces_validated_against_impl", nreads)
 	run.Set("evaluations", nreads)
 	run.Set("copies_made", ncopies)
+	run.Set("copy_properties_compared", atomic.LoadInt64(&c19PropsCompared))
+	run.Set("restarts_after_copies", atomic.LoadInt64(&c19Restarts))
 	run.Set("source_reads_model_checked", modelReads)
 	run.Set("tlc_model", cfgs)
 	run.Set("rule", "case = (DAG shape, placement of value/tombstone/nothing of a datum over the nodes, copy mode, queried node); TLC (KVCopy.tla over KVShapes/KVRead) enumerates every shape, evaluates KVRead.Read of the source for every placement, checks that a plain copy reads like the source, that a copy flattened at V reads source@V at V and its descendants and nothing elsewhere, and that a deletion issued where the datum is absent changes no read; the harness builds each shape through the HTTP API with six source instances (keyvalue with every placement as its own key, keyvalue with the conflict-free placements, uint8blk blocks, annotation elements read through block and tag index, two roi), calls datastore.CopyInstance plain and with transmit=flatten at every node, onto the same store and onto a second Badger store (store assignment by tag), and reads every source and every copy at every node; thorough: seeded sample of the 5-node shapes and of the keyvalue placements; distinct_nontrivial counts DAG shapes (copy) and (shape, datatype, migration mode) triples (migration). "+c19MigrateRule)
